@@ -64,11 +64,13 @@ structure Result where
   responses : List (List (List UInt8))
 deriving Repr, DecidableEq
 
-def system (c : Setup) (n : Nat) : Result :=
-  let mails := mailsAfter c n
+/-- what the two sides have done when these are the mails of the run -/
+def resultOf (c : Setup) (mails : List Mail) : Result :=
   let (tr, o) := run c.p c.kind c.cnt c.fulls mails
   let (s, rss) := serveAll c.srv (requests c mails)
   ⟨tr, o, s.objs, rss⟩
+
+def system (c : Setup) (n : Nat) : Result := resultOf c (mailsAfter c n)
 
 /-- the object the call is about -/
 def target (c : Setup) (objs : List Obj) : Option (List UInt8) :=
